@@ -6,7 +6,7 @@ func init() {
 	// the three readers of an access token: (token id, subject) only from a decrypted "id:subject" pair or a verified JWT
 	readerReq := func(crypto string) []string {
 		return []string{
-			"(ok(" + crypto + ".Decrypt($accessToken)) && eq(len($split), 2) && def($split, strings.Split($plain, \":\")) && def($plain, " + crypto + ".Decrypt($accessToken), 0))" +
+			"(ok(" + crypto + ".Decrypt($accessToken)) && segs($plain, \":\", 2) && def($plain, " + crypto + ".Decrypt($accessToken), 0))" +
 				" || (fail(" + crypto + ".Decrypt($accessToken)) && ok(op.VerifyAccessToken(_, $accessToken, _)))",
 		}
 	}
